@@ -18,7 +18,7 @@ ORDINARY = (ValueError, TypeError, IndexError, KeyError, NotImplementedError, Ru
 # ------------------------------------------------------------------ generation (parent process)
 _WEIGHTS = [("cartesian", 2), ("argcomb", 2), ("field", 2), ("withfield", 2), ("withfield_b", 3), ("rt", 5), ("ufunc", 3), ("addmasked", 4), ("filter", 3), ("num", 3),
             ("flatten", 5), ("localindex", 5), ("pad", 8), ("fillnone", 10), ("isnone", 8), ("mask", 7), ("singletons", 3), ("firsts", 3),
-            ("comb", 3), ("reduce", 6), ("sort", 4), ("concatperm", 3), ("concat0", 2), ("concat2", 5), ("concat1", 3), ("zip", 3), ("unflatten", 3),
+            ("comb", 3), ("reduce", 6), ("sort", 4), ("concatperm", 3), ("bcperm", 3), ("concat0", 2), ("concat2", 5), ("concat1", 3), ("zip", 3), ("unflatten", 3),
             ("same", 2), ("maysame", 2)]
 _OPS = [name for name, w in _WEIGHTS for _ in range(w)]
 
@@ -68,7 +68,7 @@ def _rand_op(rng):
     if kind == "concat2":
         other, _n = trmod._rand_layout(rng, rng.randint(0, 2), allow_union=False)
         return "concat2", {"other": other}
-    return kind, {}                     # singletons, firsts, concatperm, concat0, concat1, zip, unflatten
+    return kind, {}                     # singletons, firsts, concatperm, bcperm, concat0, concat1, zip, unflatten
 
 
 def gen_cases(seed, n, maxops, outdir):
@@ -140,6 +140,10 @@ def _call(ak, np, op, a, A):
     if op == "concatperm":
         keys = ak.fields(A)
         return ak.concatenate([A, A[keys[::-1]]], axis=0)
+    if op == "bcperm":
+        # the same records with the fields declared in the opposite order: broadcasting pairs fields by NAME
+        keys = ak.fields(A)
+        return ak.broadcast_arrays(A, A[keys[::-1]])[1][keys]
     if op == "concat0":
         return ak.concatenate([A, A], axis=0)
     if op == "concat1":
@@ -214,6 +218,8 @@ def h_chain(case, pick, st, stats):
             break                                    # outside the model's domain (strings, unions, big numbers): the chain stops
         if op in ("field", "withfield") and ('"%s":' % a["key"] not in ty and not (a["key"].isdigit() and "(" in ty)):
             continue                                 # no such field anywhere in the type: a different question (KeyError)
+        if op == "bcperm" and not (len(ak.fields(A)) >= 2 and not ak.fields(A)[0].isdigit()):
+            continue                                 # needs named records with two or more fields somewhere below the top
         if op == "concatperm" and not (ty.startswith("{") and len(ak.fields(A)) >= 2):
             continue                                 # needs named records with two or more fields at the top
         if op == "rt_arrow" and "union" in ty:
